@@ -83,6 +83,8 @@ class Hub:
 
     def _block(self, what, timeout=None):
         """Park the current task; returns the value it is woken with (TIMEOUT on timeout)."""
+        if getattr(self, 'dying', False):
+            raise greenlet.GreenletExit()
         t = self.current
         assert t is not None, 'blocking primitive called outside a hub task'
         t.blocked_on = what
@@ -157,6 +159,7 @@ class Hub:
                 pass
 
     def kill_all(self):
+        self.dying = True
         for t in self.tasks:
             if not t.done and t.g:
                 try:
